@@ -28,6 +28,9 @@ pub fn ghost_scn(name: &str, cats: &[Cat], full: bool) -> ChatScn {
     s.focus = Focus::state_only(cats);
     s.invariants = vec!["membership-symmetry", "dangling-member", "rank-set", "invisible-count", "operators-count", "max-users"];
     s.goals = vec!["ghost:refused-433", "ghost:ended-while-owner-lives"];
+    // one live connection per registered nickname, and no connection that counts as
+    // registered without owning a user (the oracle of C02)
+    s.state_oracle = Some(Box::new(|_scn, _w, v, _g| super::reg::ownership_bijection(v)));
     s.step_oracle = Some(Box::new(|_scn, pre, obs, post, goals| {
         if obs.lines.iter().any(|ls| ls.iter().any(|l| l.contains(" 433 "))) {
             goals.insert("ghost:refused-433".into());
